@@ -19,6 +19,9 @@ The wrapped driver replays every ordinary op word unchanged.  The wrapper adds
                      iteration are kept (a `bad-op` / `panic` of any iteration ends the op);
 * `extendrun <v> <k> <~TTxN>` = `extend <v> t0|t1|…` with k run tokens (tags TT, TT+1, …);
 * `newrun <k> <~TTxN>`        = `new_from_slices t0|t1|…`;
+* `msgrun <ctor> <vt> <k> <tag0> <step>[r] <kind> <len>` = `msg <ctor> <vt> <k items>` (family tlv): tags tag0,
+                     tag0+step, … (`r`: laid out in descending order), every value `len` copies of one letter;
+* `viewrun <k> <tag0> <step>[r] <len> <lookups>` = `view <wire of those k pairs> <lookups>` (family tlvview);
 * `scoped_panic <owner> <how> <n>`   harness only: objects owned by a closure that panics under
                      `catch_unwind` (dropped by the unwinder); nothing of the modelled world changes,
                      the observation is `P caught`;
@@ -149,9 +152,47 @@ def splitOps (ws : List String) : List (List String) :=
     | w :: rest => if w = ";" then go rest [] (cur.reverse :: acc) else go rest (w :: cur) acc
   (go ws [] []).filter (fun o => !o.isEmpty)
 
+def le32 (n : Nat) : List UInt8 :=
+  [n % 256, n / 256 % 256, n / 65536 % 256, n / 16777216 % 256].map UInt8.ofNat
+
+/-- `<n>` or `<n>r` (the run is laid out in reverse order) -/
+def parseStep (s : String) : Option (Nat × Bool) :=
+  let cs := s.toList
+  if cs.getLast? = some 'r' then (String.ofList cs.dropLast).toNat?.map (·, true)
+  else s.toNat?.map (·, false)
+
+/-- item j of a run of k pairs: its tag and the byte its value repeats -/
+def runPair (k tag0 step : Nat) (rev : Bool) (j : Nat) : Nat × UInt8 :=
+  let idx := if rev then k - 1 - j else j
+  (tag0 + idx * step, UInt8.ofNat (0x41 + idx % 26))
+
+/-- the item list of `msgrun`: k pairs `tag:kind:payload`, tags tag0, tag0+step, … (reversed for `<step>r`),
+every value `len` copies of one ASCII letter -/
+def msgItems (k tag0 step : Nat) (rev : Bool) (kind : String) (len : Nat) : String :=
+  if k = 0 then "-"
+  else ",".intercalate ((List.range k).map fun j =>
+    let (tag, b) := runPair k tag0 step rev j
+    toString tag ++ ":" ++ kind ++ ":" ++ (if len = 0 then "-" else toHex (List.replicate len b)))
+
+/-- the wire form `viewrun` hands to `view`: k pairs in the order given (ascending unless `<step>r`) -/
+def viewWire (k tag0 step : Nat) (rev : Bool) (len : Nat) : List UInt8 :=
+  let idxs := List.range k
+  le32 k
+    ++ ((List.range (k - 1)).flatMap fun i => le32 ((i + 1) * len))
+    ++ (idxs.flatMap fun j => le32 (runPair k tag0 step rev j).1)
+    ++ (idxs.flatMap fun j => List.replicate len (runPair k tag0 step rev j).2)
+
 /-- the wrapper's own macro ops, expanded into the wrapped vocabulary -/
 def macroOp (ws : List String) : List String :=
   match ws with
+  | ["msgrun", ctor, vt, k, tag0, step, kind, len] =>
+    match k.toNat?, tag0.toNat?, parseStep step, len.toNat? with
+    | some k, some t0, some (st, rev), some len => ["msg", ctor, vt, msgItems k t0 st rev kind len]
+    | _, _, _, _ => ws
+  | ["viewrun", k, tag0, step, len, lookups] =>
+    match k.toNat?, tag0.toNat?, parseStep step, len.toNat? with
+    | some k, some t0, some (st, rev), some len => ["view", toHex (viewWire k t0 st rev len), lookups]
+    | _, _, _, _ => ws
   | ["extendrun", v, k, tok] =>
     match k.toNat? with
     | some k => ["extend", v, runTokens k tok]
@@ -204,7 +245,7 @@ def repFactor (p : String) : Option (String × Nat) :=
 /-- Ops the list-based models cannot replay in reasonable time switch the case to `quiet` BY RULE
 (the harness applies the same rule), so that a shrunk or hand-written replay can never make the
 model run for hours: an `Interrupted` burst of 30000 or more in a `script`; 20000 or more slices /
-iterations in `extendrun` / `newrun` / `rep`; a multi-byte token repeated 30000 times or more in a
+iterations in `extendrun` / `newrun` / `rep`; 400 or more pairs in `msgrun` / `viewrun`; a multi-byte token repeated 30000 times or more in a
 `+` word; a run token of 8 MiB or more. -/
 def autoQuiet (ws : List String) : Bool :=
   let bigRun (w : String) : Bool :=
@@ -225,6 +266,9 @@ def autoQuiet (ws : List String) : Bool :=
    | ["extendrun", _, k, _] => (match k.toNat? with | some k => decide (k ≥ 20000) | none => false)
    | ["newrun", k, _] => (match k.toNat? with | some k => decide (k ≥ 20000) | none => false)
    | "rep" :: k :: _ => (match k.toNat? with | some k => decide (k ≥ 20000) | none => false)
+   -- (the TLV list models are cubic in the pair count: 256 pairs take seconds, 1024 minutes)
+   | "msgrun" :: _ :: _ :: k :: _ => (match k.toNat? with | some k => decide (k ≥ 400) | none => false)
+   | "viewrun" :: k :: _ => (match k.toNat? with | some k => decide (k ≥ 400) | none => false)
    | _ => false)
   || ws.any bigRun || ws.any bigPart
 
